@@ -6,7 +6,7 @@ Definition pools_rel (w w' : world) : Prop := pools_preserved (w_pm w) (w_pm w')
 
 Lemma pools_rel_handle w t s f m w2 subs : handle w t s f m = Ok (w2, subs) -> pools_rel w w2.
 Proof.
-  unfold handle, pools_rel. intros H.
+  unfold pools_rel. intros H. apply handle_ok_typed in H. destruct H as [H _]. unfold handle_typed in H.
   destruct (String.eqb t EM); [destruct m; inv_all; apply pools_preserved_refl|].
   destruct (String.eqb t FC); [destruct m; inv_all; apply pools_preserved_refl|].
   destruct (String.eqb t PM).
@@ -115,7 +115,7 @@ Proof.
   - auto.
   - auto.
   - intros x y (_ & _ & _ & _ & _ & Hpm & _). rewrite Hpm. auto.
-  - intros x t s f m w2 subs H Hi. unfold handle in H.
+  - intros x t s f m w2 subs H Hi. apply handle_ok_typed in H. destruct H as [H _]. unfold handle_typed in H.
     destruct (String.eqb t EM); [destruct m; inv_all; exact Hi|].
     destruct (String.eqb t FC); [destruct m; inv_all; exact Hi|].
     destruct (String.eqb t PM).
